@@ -10,6 +10,12 @@
 
 package main
 
+import (
+	"bytes"
+
+	"github.com/yuin/goldmark/util"
+)
+
 // ---- specification helpers (interpreted by govc) ----
 
 func old[T any](x T) T   { return x }
@@ -35,6 +41,7 @@ func entry[T any](x T) T { return x }
 
 //@ func countRun
 //@   props C29
+//@   opt function yes
 //@   requires 0 <= pos
 //@   ensures 0 <= result && (pos <= len(line) ==> pos+result <= len(line))
 //@   ensures pos < len(line) && line[pos] == c ==> result >= 1
@@ -102,9 +109,33 @@ func entry[T any](x T) T { return x }
 //@ func isIndentedCode
 //@   props C29
 
+// CommonMark 0.31, 4.5 Fenced code blocks: "A code fence is a sequence of at
+// least three consecutive backtick characters or tildes. [...] The line with
+// the opening code fence may optionally contain some text following the code
+// fence [...] called the info string. If the info string comes after a
+// backtick fence, it may not contain any backtick characters. [...] The fence
+// may be indented 0-3 spaces." (Nothing restricts the info string of a tilde
+// fence.)
+func specFenceOpener(line []byte) bool {
+	width, pos := util.IndentWidth(line, 0)
+	if width > 3 || pos >= len(line) {
+		return false
+	}
+	c := line[pos]
+	if c != '`' && c != '~' {
+		return false
+	}
+	run := countRun(line, pos, c)
+	if run < 3 {
+		return false
+	}
+	return c != '`' || bytes.IndexByte(line[pos+run:], '`') < 0
+}
+
 //@ func isFenceStart
 //@   props C29
-//@   ensures ok ==> fenceLen >= 3
+//@   ensures ok ==> fenceLen >= 3 && (fenceChar == '`' || fenceChar == '~')
+//@   ensures ok == specFenceOpener(line)
 
 //@ func isFenceClose
 //@   props C29
